@@ -112,6 +112,26 @@ SEEDS = {
               ['./share/availability/light/'], ['-run', 'TestSeed_SampleRejectedOnceStaysRejected', './share/shwap/p2p/bitswap/']),
     "C01-4": ("C01/r2change2", "C01", [('demo/range_namespace_data_seed_test.go', 'share/shwap/range_namespace_data_seed_test.go')],
               ['./share/shwap/'], ['-run', 'TestSeed_RangeLastRowBorrowedFromNeighbouringRange', './share/shwap/']),
+    "C06-3": ("C06/r2change1", "C06", [('demo/block_fetch_same_cid_race_demo_test.go', 'share/shwap/p2p/bitswap/block_fetch_same_cid_race_demo_test.go')],
+              ['./share/availability/light/'], ['-run', 'TestFetch_ConcurrentSameCID_AllPopulated', './share/shwap/p2p/bitswap/']),
+    "C06-4": ("C06/r2change2", "C06", [('demo/shrex_truncated_nd_demo_test.go', 'share/shwap/p2p/shrex/shrex_getter/shrex_truncated_nd_demo_test.go')],
+              ['./share/shwap/', './share/eds/'], ['-run', 'TestShrexGetter_TruncatedNamespaceData|TestNamespaceData_VerifyRejectsMissingRows', './share/shwap/p2p/shrex/shrex_getter/']),
+    "C13-3": ("C13/r2change1", "C13", [('demo/catchup_done_boundary_test.go', 'das/catchup_done_boundary_test.go')],
+              ['./das/'], ['-run', 'TestCatchUpDoneOnlyWhenNothingLeft', './das/']),
+    "C13-4": ("C13/r2change2", "C13", [('demo/recent_limit_head_lost_test.go', 'das/recent_limit_head_lost_test.go')],
+              ['./das/'], ['-run', 'TestHeadArrivingAtRecentJobsLimitIsStillSampled', './das/']),
+    "C20-3": ("C20/r2change1", "C20", [('demo/c20_change1_demo_test.go', 'blob/c20_change1_demo_test.go')],
+              ['./blob/...'], ['-run', 'TestC20Change1', './blob/']),
+    "C20-4": ("C20/r2change2", "C20", [('demo/c20_change2_demo_test.go', 'blob/c20_change2_demo_test.go')],
+              ['./blob/...'], ['-run', 'TestC20Change2', './blob/']),
+    "C17-3": ("C17/r2change1", "C17", [('demo/c17_change1_demo_test.go', 'share/shwap/p2p/shrex/peers/c17_change1_demo_test.go')],
+              ['./share/shwap/p2p/shrex/peers/'], ['-run', 'TestC17Change1', './share/shwap/p2p/shrex/peers/']),
+    "C17-4": ("C17/r2change2", "C17", [('demo/c17_change2_demo_test.go', 'share/shwap/p2p/shrex/peers/c17_change2_demo_test.go')],
+              ['./share/shwap/p2p/shrex/peers/'], ['-run', 'TestC17Change2', './share/shwap/p2p/shrex/peers/']),
+    "C19-3": ("C19/r2change1", "C19", [('demo/c19_expired_token_demo_test.go', 'api/rpc/c19_expired_token_demo_test.go')],
+              ['./api/rpc/', './api/'], ['-run', 'TestC19_ExpiredTokenGrantsNothing', './api/rpc/']),
+    "C19-4": ("C19/r2change2", "C19", [('demo/libs_authtoken/c19_authtoken_demo_test.go', 'libs/authtoken/c19_authtoken_demo_test.go'), ('demo/api_rpc/c19_perm_aliasing_demo_test.go', 'api/rpc/c19_perm_aliasing_demo_test.go')],
+              ['./api/rpc/', './api/'], ['-run', 'TestC19_ReadTokenNeverReachesAdmin|TestC19_ExtractedPermissionsAreStable', './api/rpc/', './libs/authtoken/']),
     "C06-1": ("C06/change1", "C06", [("demo/sample_unverified_demo_test.go", "share/shwap/p2p/bitswap/sample_unverified_demo_test.go")],
               ["./share/shwap/p2p/bitswap/"], ["-run", "TestDemo_GetSamples", "./share/shwap/p2p/bitswap/"]),
     "C06-2": ("C06/change2", "C06", [("demo/eds_retry_demo_test.go", "share/shwap/p2p/shrex/shrex_getter/eds_retry_demo_test.go")],
